@@ -214,6 +214,20 @@ impl MdkSqliteStorage {
                         config
                     }
                     None => {
+                        // No key in the keyring yet and the file holds nothing: another thread
+                        // has just pre-created the file and is about to generate its key (or a
+                        // previous attempt died right after creating the file). Nothing can be
+                        // stored in a zero-length file, so this is still a new database:
+                        // get_or_create_db_key() is serialised by the key-generation lock and
+                        // hands every caller the same key.
+                        let is_empty = std::fs::metadata(file_path)
+                            .map(|m| m.len() == 0)
+                            .unwrap_or(false);
+                        if is_empty {
+                            let config = keyring::get_or_create_db_key(service_id, db_key_id)?;
+                            return Self::new_internal_skip_precreate(file_path, Some(config));
+                        }
+
                         // No key in keyring. Check if the database file appears unencrypted.
                         // This catches the case where someone tries to use new() on a
                         // database that was created with new_unencrypted().
